@@ -93,6 +93,8 @@ type Transform struct {
 	Multi   bool
 	Gate    bool
 	Fetches [][]Atom
+	// chainSuffix: the observed collection is chained behind the derived one (oracle only)
+	chainSuffix bool
 }
 
 func (t Transform) Token() string {
